@@ -571,6 +571,12 @@ func ReadElement(r io.Reader, element interface{}) error {
 		}
 		numSigs := binary.BigEndian.Uint16(l[:])
 
+		// The signatures have to fit into the message that carries
+		// them, don't allocate for more than that.
+		if int(numSigs)*64 > MaxMsgBody {
+			return fmt.Errorf("too many signatures: %d", numSigs)
+		}
+
 		var sigs []Sig
 		if numSigs > 0 {
 			sigs = make([]Sig, numSigs)
